@@ -170,11 +170,13 @@ class Parser(object):
                 line, pos
             )
 
-    def _is_type_sizer_compatible(self, typename):
+    def _is_type_sizer_compatible(self, typename, visited=()):
         if typename in {type_ + width for type_ in 'ui' for width in ['8', '16', '32', '64']}:
             return True
+        elif typename in visited:
+            return False
         elif typename in self.typedecls and isinstance(self.typedecls[typename], model.Typedef):
-            return self._is_type_sizer_compatible(self.typedecls[typename].type_name)
+            return self._is_type_sizer_compatible(self.typedecls[typename].type_name, visited + (typename,))
         else:
             return False
 
